@@ -150,6 +150,21 @@ func (x *Exec) runInit(st *State, init *ssa.Function) (ok bool) {
 // never written (nor have their address or reference contents escape to a
 // writer) outside package initialisers.
 func (x *Exec) scanImmutable() map[*ssa.Global]bool {
+	pureExternalCallee = func(f *ssa.Function) bool {
+		if f == nil || x.isInTree(f) {
+			return false
+		}
+		c := x.contractFor(f)
+		if c == nil || !c.External || c.ModAll || len(c.Modifies) > 0 {
+			return false
+		}
+		for _, vc := range x.variants[f.String()] {
+			if vc.ModAll || len(vc.Modifies) > 0 {
+				return false
+			}
+		}
+		return true
+	}
 	mutable := map[*ssa.Global]bool{}
 	all := map[*ssa.Global]bool{}
 	for _, p := range x.prog.AllPackages() {
@@ -311,6 +326,10 @@ func readOnlyValue(v ssa.Value, depth int) bool {
 			if u.Common().Value == v {
 				continue
 			}
+			// passed to a function outside the module whose assumed contract modifies nothing
+			if pureExternalCallee != nil && pureExternalCallee(u.Common().StaticCallee()) {
+				continue
+			}
 			return false
 		case *ssa.Store:
 			if u.Val == v && refType {
@@ -343,6 +362,10 @@ func readOnlyValue(v ssa.Value, depth int) bool {
 }
 
 func isRefValue(v ssa.Value) bool { return true }
+
+// pureExternalCallee: set by scanImmutable; a statically known callee outside the module whose
+// (assumed) contract - in every variant - has no modifies clause.
+var pureExternalCallee func(f *ssa.Function) bool
 
 // readOnlyAddrLocal: a local variable holding the reference is only read.
 func readOnlyAddrLocal(a *ssa.Alloc, depth int) bool {
